@@ -4,7 +4,7 @@
 NOT_YET = {
 }
 
-UNITS = ['types', 'sym', 'lex', 'parser', 'sema', 'short', 'astx']
+UNITS = ['types', 'sym', 'lex', 'parser', 'sema', 'short', 'astx', 'synx']
 
 PROPS = {
     'C20': dict(
@@ -68,33 +68,45 @@ PROPS = {
             'no spurious lexical error on well-formed comment / whitespace / ident / pragma / annotation / version tokens',
             'scanner kind postconditions: line comment, block comment, whitespace, identifier classes',
             'a token starting with a digit is the numeric literal of the OpenQASM 3 syntax (spec function num_spec): class, base, flags and extent by maximal munch; digit runs and exponents are consumed by maximal munch',
+            'keyword and type-name tables: from_keyword / from_scalar_type give each of the 45 keyword kinds and 9 type kinds to exactly the spelling its variant name stands for, and None to everything else (table generated from the SyntaxKind variant names, not from the bodies)',
+            'inner_extend_token: an identifier-shaped lexeme gets the keyword / type kind of exactly that spelling, `_` is UNDERSCORE, every other spelling is IDENT',
         ],
-        not_decided=['keyword / type-name table beyond "a keyword kind is a token kind" (str matching)', 'maximal-munch extents of identifiers, strings and comments',
-                     'lifting per-token facts to arbitrary lexeme sequences'],
+        not_decided=[
+            'maximal-munch extents of identifiers, strings and comments',
+            'lifting per-token facts to arbitrary lexeme sequences',
+        ],
         explanation='Verus; per-token classification contracts.',
     ),
     'C11': dict(
-        units=['lex'],
+        units=['lex', 'synx'],
         decided=[
             'every malformedness flag of the lexer (unterminated string/bitstring/block comment, empty int, empty exponent, bad version, invalid identifier) yields a non-empty message',
             'Converter::push records it under the index of that very token; nothing is recorded otherwise',
             'numeric literals: empty_int / empty_exponent are set exactly when the OpenQASM 3 numeric syntax (num_spec) says so: a base prefix without digits, an exponent marker [sign] without digits',
+            'parse_text_check_lex (unit SYNX): the tree is withheld exactly when the lexed text has a lexical diagnostic, and then exactly the lexical diagnostics are returned (one syntax error per diagnostic); otherwise the tree of the same text is returned',
         ],
-        not_decided=['that the string / comment scanners set `terminated` exactly when the closing delimiter was consumed',
-                     'parse_text_check_lex / analyze_source gates (SEMA unit)', 'recursive have_syntax_errors over included files'],
+        not_decided=[
+            'that the string / comment scanners set `terminated` exactly when the closing delimiter was consumed',
+            'recursive have_syntax_errors over included files',
+            'analyze_source gate (generic SourceTrait plumbing: not verified)',
+        ],
         explanation='Verus.',
     ),
     'C01': dict(
-        units=['lex', 'parser'],
+        units=['lex', 'parser', 'synx'],
         decided=[
             'lexer: every loop decreases the remaining input, advance_token consumes >= 1 char unless at EOF, no arithmetic overflow, every debug_assert holds (all inputs <= 2^31-1 bytes)',
             'token table and parser core: no index / shift / subtraction failure in Converter, LexedStr accessors, Input, TokenSet (kinds >= 128 are never members), Parser',
             'grammar, every function and every token context: each assert!, p.bump(K), unreachable!, u8/u32/usize arithmetic is safe',
             'grammar: every one of the 13 loops strictly decreases the number of remaining tokens on each back edge (=> work bounded by tokens x nesting)',
+            'parsing.rs: the u32 conversions and TextRange::new of the lexical-diagnostic conversion never fail (unit SYNX)',
         ],
-        not_decided=['termination of the mutual recursion of the grammar (exec_allows_no_decreases_clause is declared on recursive functions; counted in assumption_scan)',
-                     'marker / DropBomb discipline, event::process, TopEntryPoint::parse balance assertions, Builder, rowan tree construction, validation.rs (e.g. Literal::token().unwrap())',
-                     'Parser::nth step-limit assertion (unreachable once every loop and recursion makes progress; not proved)', 'native stack depth'],
+        not_decided=[
+            'termination of the mutual recursion of the grammar (exec_allows_no_decreases_clause is declared on recursive functions; counted in assumption_scan)',
+            'marker / DropBomb discipline, event::process, TopEntryPoint::parse balance assertions, Builder, rowan tree construction, validation.rs (e.g. Literal::token().unwrap())',
+            'Parser::nth step-limit assertion (unreachable once every loop and recursion makes progress; not proved)',
+            'native stack depth',
+        ],
         explanation='Verus on the real lexer, token table, parser core and the whole grammar.',
         assumptions=['source text <= 2^31 - 1 bytes', 'Input built by LexedStr::to_input: no EOF kind inside, jointness bits allocated (wf; established in the LEX unit chain lemma / SHORT unit)'],
     ),
@@ -103,20 +115,29 @@ PROPS = {
         decided=[
             'current_op returns, for the operator at the cursor, the binding power and associativity of the table bp_of, and that operator is the composite token actually present (so the following bump consumes exactly it)',
             'outside the three recorded carve-outs bp_of orders the 19 binary operators exactly as the OpenQASM 3 table; all are left-associative; compound assignments are right-associative and lowest',
+            'expr_bp parses the right operand of an operator of binding power b with minimum b + 1 if it is left-associative and b if right-associative (so chains of one level nest to the left / right as the table says)',
+            "hand-written typed accessors (unit ASTX, over an abstract view of the node's children): while / for body and condition, if condition, binary lhs / rhs, range start / step / stop (2 and 3 children), assignment target and value return the constituent of that role; if then / else bodies when the then-body is a block (recorded finding otherwise)",
         ],
-        not_decided=['that the Pratt loop builds the tree the table implies (functional correctness of expr_bp / precede)',
-                     'AST accessor roles (IfStmt, ForStmt, Gate, RangeExpr::start_step_stop, op_details ...): methods over rowan nodes'],
+        not_decided=[
+            'that the Pratt loop builds the tree the table implies (functional correctness of expr_bp / precede)',
+            'generated accessors (support::child one-liners), Gate / Def accessors, token-based accessors (op_details, Literal::kind)',
+            'that the node shapes assumed by unit ASTX (children of IF_STMT, WHILE_STMT, FOR_STMT, BIN_EXPR, RANGE_EXPR, ASSIGNMENT_STMT) are what the grammar builds',
+        ],
         explanation='Verus: postcondition of current_op against a spec table + lemmas comparing the table with the specification order.',
     ),
     'C12': dict(
-        units=['lex', 'parser'],
+        units=['lex', 'parser', 'synx'],
         decided=[
             'lexical diagnostics: token index < number of tokens, ranges start[i]..start[i+1] ordered, in range, on token (= char) boundaries',
             'an ERROR node is only ever completed after an error event has been recorded (precondition of Marker::complete at every call site of the grammar), recorded errors are never lost',
+            'the conversion of lexical diagnostics to syntax errors (parsing.rs): every range has start <= end <= length of the text, TextRange::new / TextSize::try_from never fail (unit SYNX)',
         ],
-        not_decided=['parser diagnostic offsets through Builder (SHORT unit)', 'escape-validation offsets, ERROR *tokens* without a diagnostic (lexer Unknown -> ERROR kind)',
-                     'semantic diagnostic ranges (SemanticError::range is a rowan node range by construction: one-line accessor, not modelled)',
-                     '"a diagnostic-free parse contains no error node" as a whole-tree statement'],
+        not_decided=[
+            'parser diagnostic offsets through Builder (SHORT unit)',
+            'escape-validation offsets, ERROR *tokens* without a diagnostic (lexer Unknown -> ERROR kind)',
+            'semantic diagnostic ranges (SemanticError::range is a rowan node range by construction: one-line accessor, not modelled)',
+            '"a diagnostic-free parse contains no error node" as a whole-tree statement',
+        ],
         explanation='Verus.',
     ),
     'C03': dict(
@@ -184,16 +205,20 @@ PROPS = {
         explanation='Verus.',
     ),
     'C02': dict(
-        units=['lex', 'short', 'parser'],
+        units=['lex', 'short', 'parser', 'synx'],
         decided=[
             '(a) token lengths are the UTF-8 sizes of the consumed characters and tile the input; (b) the token table ends at the input length (LEX unit chain lemma)',
             '(c) to_input keeps exactly the non-trivia kinds, in order; a token is marked joint iff the very next raw token is not trivia (or it is a float not ending in `.`); the input is well formed and EOF-free',
             '(d) Parser::eat(K) advances by exactly 2 / 3 raw tokens for the composite kinds and only when the pieces are present and glued, 1 otherwise; do_bump is the only writer of pos; the Token event carries that count',
             '(f) Builder: do_token emits exactly one Token step carrying the text of the next n raw tokens; eat_trivias emits every pending trivia token in place; the Token steps handed to the sink cover the raw tokens [0, pos) consecutively (invariant preserved by token / exit / eat_trivias / do_token)',
+            'both parse entry points lex exactly the text they were given and hand the tree builder the token table and the parser output of that same text (unit SYNX; the builder itself is trusted)',
         ],
-        not_decided=['(e) Output encode/decode identity is decided in the thorough tier only (Kani, full domain for one event)', 'intersperse_trivia loop and Builder::enter (iterators / closures): that every Output step reaches the builder in order, and token(..) preconditions hold there',
-                     'event::process keeps the order of Token events; rowan GreenNodeBuilder turns balanced Enter/Token/Exit streams into a tree whose text is the concatenation (external crate)',
-                     '(g) the parser consumes all non-trivia tokens (source_file exits its loop only at EOF: proved as loop exit condition, not stated as a postcondition)'],
+        not_decided=[
+            '(e) Output encode/decode identity is decided in the thorough tier only (Kani, full domain for one event)',
+            'intersperse_trivia loop and Builder::enter (iterators / closures): that every Output step reaches the builder in order, and token(..) preconditions hold there',
+            'event::process keeps the order of Token events; rowan GreenNodeBuilder turns balanced Enter/Token/Exit streams into a tree whose text is the concatenation (external crate)',
+            '(g) the parser consumes all non-trivia tokens (source_file exits its loop only at EOF: proved as loop exit condition, not stated as a postcondition)',
+        ],
         explanation='Verus: token accounting chain lexer -> LexedStr -> Input -> parser events -> Builder; Kani (thorough): Output encode/decode.',
         kani=True,
     ),
